@@ -543,6 +543,8 @@ func RunPlan(p Plan) *Result {
 		go func(si int) {
 			defer staleWg.Done()
 			rnd := newLCG(int64(977 + si))
+			kept := map[int]*dragonboat.RequestState{}
+			keptInc := map[int]int{}
 			for {
 				select {
 				case <-stopClients:
@@ -552,8 +554,22 @@ func RunPlan(p Plan) *Result {
 				hostMu.RLock()
 				h := c.Hosts[rnd.intn(p.Hosts)]
 				if h.Up && h.NH != nil {
-					if _, err := h.NH.StaleRead(shardID, fmt.Sprintf("k%d", rnd.intn(p.Keys))); err == nil {
+					key := fmt.Sprintf("k%d", rnd.intn(p.Keys))
+					if rs := kept[h.Idx]; rs != nil && keptInc[h.Idx] == h.Inc && rnd.intn(2) == 0 {
+						// the no-allocation read path with a completed ReadIndex that the reader
+						// keeps using (not part of the checked history: the index is old)
+						if _, err := h.NH.NAReadLocalNode(rs, []byte(key)); err == nil {
+							res.flag("na-read-ok")
+						}
+					} else if _, err := h.NH.StaleRead(shardID, key); err == nil {
 						res.flag("stale-read-ok")
+					}
+					if keptInc[h.Idx] != h.Inc || kept[h.Idx] == nil {
+						if rs, err := h.NH.ReadIndex(shardID, 200*time.Millisecond); err == nil {
+							if r, got := awaitResult(rs, 200*time.Millisecond); got && r.Completed() {
+								kept[h.Idx], keptInc[h.Idx] = rs, h.Inc
+							}
+						}
 					}
 				}
 				hostMu.RUnlock()
